@@ -102,6 +102,36 @@ pub fn check_models(engine: &Engine, says: &Value, labels: &[Label]) -> Result<(
     Ok(())
 }
 
+/// What the engine hands to parameter generation under its default condition are the file's Gaussians, untouched: the trajectories the
+/// engine builds (hook H1) are bit-equal to those the public MlpgAdjust gives on Models::model_stream(s) - whose entries check_models
+/// has compared with the file word by word - with the public DurationEstimator's frame counts.
+pub fn check_handoff(engine: &Engine, labels: &[Label]) -> Result<(), (String, String)> {
+    use jbonsai::duration::DurationEstimator;
+    use jbonsai::mlpg_adjust::MlpgAdjust;
+    use jbonsai::model::Models;
+    // (voices whose second stream is not a scalar log F0 load, but are not synthesis voices: the generator refuses them)
+    if engine.voices.global_metadata().num_streams < 2 || engine.voices.stream_metadata(1).vector_length != 1 {
+        return Ok(());
+    }
+    let g = engine.generator(labels.to_vec()).map_err(|e| ("handoff:error".to_string(), format!("Engine::generator failed: {}", e)))?;
+    let (a, b, c) = g.verif_trajectories();
+    let m = Models::new(labels, &engine.voices, engine.condition.get_interporation_weight());
+    let dur = DurationEstimator::new(m.duration(), m.nstate()).create(engine.condition.get_speed());
+    let ns = engine.voices.global_metadata().num_streams;
+    for (s, got) in [a, b, c].iter().enumerate().take(ns) {
+        let direct = MlpgAdjust::new(engine.condition.get_gv_weight(s), engine.condition.get_msd_threshold(s), m.model_stream(s)).create(&dur);
+        let same = direct.len() == got.len()
+            && direct.iter().zip(got.iter()).all(|(x, y)| x.len() == y.len() && x.iter().zip(y).all(|(p, q)| p.to_bits() == q.to_bits()));
+        if !same {
+            let at = direct.iter().zip(got.iter()).position(|(x, y)| x.len() != y.len() || x.iter().zip(y).any(|(p, q)| p.to_bits() != q.to_bits()));
+            return Err((format!("handoff:stream{}", s),
+                        format!("default condition: the engine's trajectory of stream {} differs from parameter generation on the file's Gaussians (first differing frame {:?} of {} / {})",
+                                s, at, got.len(), direct.len())));
+        }
+    }
+    Ok(())
+}
+
 /// Compare a loaded voice with what the specification says the file contains.
 pub fn check_voice(voice: &Voice, says: &Value, labels: &[Label]) -> Result<usize, (String, String)> {
     let md = &voice.metadata;
@@ -233,6 +263,7 @@ pub fn replay(cases_path: &str, out_path: &str, labels_path: &str) {
             // the voice the engine holds (what synthesis will use) is what the file says, too
             check_voice(&engine.voices[0], &case["says"], &labels).map_err(|(k, m)| (format!("engine:{}", k), m))?;
             check_models(&engine, &case["says"], &labels)?;
+            check_handoff(&engine, &labels)?;
             Ok(n)
         });
         std::fs::remove_file(&path).ok();
@@ -291,10 +322,18 @@ fn f32bits(x: f64) -> i32 {
 /// Selections of the bundled voice on random (recombined) corpus labels, as a trace.
 pub fn record(seed: u64, n: usize, out_path: &str) {
     let corpus = Corpus::load();
-    let voice = load_htsvoice_file(&BUNDLED_VOICE).unwrap_or_else(|e| die(&format!("bundled voice: {}", e)));
+    // JBV_VOICE: another real-layout voice (a header-edited copy of the bundled one) described by its own tokenizer tables
+    let vpath = std::env::var("JBV_VOICE").unwrap_or_else(|_| BUNDLED_VOICE.to_string());
+    let voice = load_htsvoice_file(&vpath).unwrap_or_else(|e| die(&format!("voice {}: {}", vpath, e)));
     let engine = load_bundled();
     let mut rng = Rng::new(seed);
     let mut out = Out::create(out_path);
+    // what the engine's own copy of the voice says about GV use (the flags synthesis will act on)
+    for s in 0..engine.voices.global_metadata().num_streams {
+        let name = &voice.metadata.stream_type[s];
+        out.line(&json!({"ev": "smeta", "key": format!("USE_GV[{}]", name), "value": (engine.voices.stream_metadata(s).use_gv as u8).to_string()}));
+        out.line(&json!({"ev": "smeta", "key": format!("USE_GV[{}]", name), "value": (engine.voices[0].stream_models[s].gv_model.is_some() as u8).to_string()}));
+    }
     let md = &voice.metadata;
     out.line(&json!({"ev": "meta", "key": "SAMPLING_FREQUENCY", "value": md.sampling_frequency.to_string()}));
     out.line(&json!({"ev": "meta", "key": "FRAME_PERIOD", "value": md.frame_period.to_string()}));
@@ -321,6 +360,16 @@ pub fn record(seed: u64, n: usize, out_path: &str) {
             let mut toks = vec![w.width().to_string()];
             toks.extend(c.iter().map(|x| format!("{:?}", x)));
             out.line(&json!({"ev": "win", "stream": name, "index": wi + 1, "toks": toks}));
+        }
+    }
+    // hand-off: under the default condition the engine generates its trajectories from exactly these Gaussians
+    for _ in 0..(2 + n / 100) {
+        let nl = 2 + rng.below(6);
+        let labels: Vec<Label> = corpus.utterance(&mut rng, nl).iter().filter_map(|l| l.parse().ok()).collect();
+        match guarded(|| check_handoff(&engine, &labels)) {
+            Ok(Ok(())) => out.line(&json!({"ev": "handoff", "equal": true, "labels": labels.len()})),
+            Ok(Err((k, m))) => out.line(&json!({"ev": "handoff", "equal": false, "key": k, "msg": m})),
+            Err(p) => out.line(&json!({"ev": "handoff", "equal": false, "key": "panic", "msg": p})),
         }
     }
     let nstate = md.num_states;
